@@ -108,13 +108,14 @@ def model_query(case, impl_res):
                    wmi=wmi, amplitudes=amps, spike_templates=sm['spike_templates'], spike_clusters=sm['spike_clusters'],
                    factor=DC.frac(case.get('factor', 1)),
                    impl_inds_t=rows_t['vals'] if rows_t else [], impl_inds_c=rows_c['vals'] if rows_c else []))
-    # clusters.channels / clusters.peakToTrough (ms, NaN for ids without spikes); the sampling rate is the STORED one.
-    # WHICH ids have no spikes is computed by the Lean model from the STORED spike assignment (never model.nan_idx)
+    # clusters.channels / clusters.peakToTrough (ms; NaN for the ids without spikes of a CURATED dataset, i.e. model.nan_idx,
+    # which the Lean side COMPUTES with the C08 model from the stored assignments); the sampling rate is the STORED one.
+    # clusters.depths: NaN for every id without spikes, curated or not (Lean `spikelessIds` on the stored assignment)
     rate = (case.get('spec') or {}).get('sample_rate', sm['sample_rate'])
     spec = case.get('spec')
     st_ = list(spec['spike_templates']) if spec is not None else sm['spike_templates']
     sc_ = list(spec.get('spike_clusters') or spec['spike_templates']) if spec is not None else sm['spike_clusters']
-    qs.append(dict(p=PID, op='ptt', wfs=DC.fracs(sm['clusters_wfs']), rate=DC.frac(rate), spike_clusters=sc_))
+    qs.append(dict(p=PID, op='ptt', wfs=DC.fracs(sm['clusters_wfs']), rate=DC.frac(rate), spike_clusters=sc_, spike_templates=st_))
     # make_depths: the peak-channel table is the EXPORTED clusters.channels (the code reads it back from the output
     # directory; judged in step 4); the features, when the dataset stores any, are the stored arrays - a table with
     # fewer rows than spikes (pc_feature_spike_ids layout) makes get_depths() None -> cluster depths
